@@ -468,6 +468,8 @@ def compare(case, io, mo):
             return 'the model refuses this text (%s) but compile_prolog_from_string returns code' % mfront[0]
         if mfront[0] in ('lex-error', 'parse-error') and io['ast'][0] == 'ok':
             return 'the model refuses this text (%s) but the implementation front end builds an AST' % mfront[0]
+        if mfront[0] in ('lex-error', 'parse-error') and io['compile'][1] != 'CompilerSyntaxError':
+            return 'tie: a text outside the grammar (%s) is refused with %s instead of CompilerSyntaxError' % (mfront[0], io['compile'][1])
         if mfront[0] == 'refused' and io['ast'] == ['raised', 'CompilerSyntaxError']:
             return 'tie: the implementation reports a syntax error for a sentence of the grammar (which the visitor refuses)'
         return None
